@@ -431,7 +431,7 @@ func main() {
 	}
 
 	// ---- scenarios: set a password (NewHash), log in with the right and with wrong passwords ----
-	n := c.N(8, 200)
+	n := c.N(6, 200)
 	emitBudget := c.N(8, 40)
 	for i := 0; i < n; i++ {
 		g := gens[c.Rng.Intn(len(gens))]
@@ -494,6 +494,95 @@ func main() {
 			if os.Code == oOK && srv.accepts(newSalt, salt2, os.A, os.M1) {
 				c.Violate("wrong-password-accepted", "the independent verifier accepts an answer made with a different salt2", -1, 0, ws)
 			}
+		}
+	}
+
+	// ---- rare encodings searched for deliberately: values with leading zero bytes ----
+	// About 1 in 256 sessions has a server value B, a client value A or a secret s_a below 2^2040;
+	// their minimal big-endian form is shorter than 256 bytes, so every "pad to 2048 bits" step is
+	// exercised only then. Search server / client secrets that produce them (a few hundred modular
+	// exponentiations each), and also feed arbitrary short B directly.
+	for round := 0; round < c.N(1, 6); round++ {
+		g := gens[round%len(gens)]
+		G := big.NewInt(int64(g))
+		password := c.Rng.Bytes(c.Rng.Range(1, 16))
+		salt1, salt2 := c.Rng.Bytes(8), c.Rng.Bytes(16)
+		vb, newSalt, ok := h.newHashCase(newIn{hx16(password), hx16(salt1), hx16(salt2), prodP, hx16(c.Rng.Bytes(32)), g, "scenario"}, true, false)
+		if !ok {
+			continue
+		}
+		v := num(vb)
+		short := func(x *big.Int) bool { return x.BitLen() <= 2040 }
+		// (1) server secret b with a short B
+		var srv *server
+		for try := 0; try < 8000; try++ {
+			srv = newServer(p, int64(g), v, num(c.Rng.Bytes(256)))
+			if short(srv.B) {
+				break
+			}
+		}
+		if !short(srv.B) {
+			c.Note("no short B found in 8000 tries")
+			continue
+		}
+		wrong := append(append([]byte{}, password...), 'x')
+		for ei, B := range [][]byte{srv.B.Bytes(), pad(srv.B), append([]byte{0, 0}, srv.B.Bytes()...)} {
+			enc := []string{"minimal", "padded", "zero-prefixed"}[ei]
+			in := hashIn{Password: hx16(password), SrpB: hx16(B), Random: hx16(c.Rng.Bytes(256)), Salt1: hx16(newSalt), Salt2: hx16(salt2), G: g, P: prodP, Note: "short-B-" + enc}
+			o := h.hashCase(in, true, round == 0 && ei == 0)
+			if o.Code == oOK {
+				c.Obs.Evaluations++
+				if !srv.accepts(newSalt, salt2, o.A, o.M1) {
+					c.Violate("right-password-rejected", "the independent verifier rejects the answer made with the right password for a server value B below 2^2040 sent in "+enc+" encoding", -1, 0, in)
+				}
+			}
+			w := in
+			w.Password, w.Note = hx16(wrong), "short-B-"+enc+"-wrong-password"
+			if ei != 0 && !c.Thorough() {
+				continue
+			}
+			if ow := h.hashCase(w, true, false); ow.Code == oOK && srv.accepts(newSalt, salt2, ow.A, ow.M1) {
+				c.Violate("wrong-password-accepted", "the independent verifier accepts a wrong password (short B, "+enc+")", -1, 0, w)
+			}
+		}
+		// (2) client secret a with a short A = g^a mod p, (3) with a short s_a
+		x := num(h.spec.ph2(password, newSalt, salt2))
+		k := num(H(pad(p), pad(G)))
+		srv = newServer(p, int64(g), v, num(c.Rng.Bytes(256)))
+		t := new(big.Int).Mod(new(big.Int).Sub(srv.B, new(big.Int).Mod(new(big.Int).Mul(k, v), p)), p)
+		foundA, foundS := false, false
+		for try := 0; try < 8000 && !(foundA && foundS); try++ {
+			a := c.Rng.Bytes(256)
+			ga := new(big.Int).Exp(G, num(a), p)
+			u := num(H(pad(ga), pad(srv.B)))
+			sa := new(big.Int).Exp(t, new(big.Int).Add(num(a), new(big.Int).Mul(u, x)), p)
+			note := ""
+			switch {
+			case short(ga) && !foundA:
+				foundA, note = true, "short-A"
+			case short(sa) && !foundS:
+				foundS, note = true, "short-s_a"
+			default:
+				continue
+			}
+			in := hashIn{Password: hx16(password), SrpB: hx16(srv.B.Bytes()), Random: hx16(a), Salt1: hx16(newSalt), Salt2: hx16(salt2), G: g, P: prodP, Note: note}
+			o := h.hashCase(in, true, round == 0)
+			if o.Code == oOK {
+				c.Obs.Evaluations++
+				if !srv.accepts(newSalt, salt2, o.A, o.M1) {
+					c.Violate("right-password-rejected", "the independent verifier rejects the answer made with the right password ("+note+" has leading zero bytes)", -1, 0, in)
+				}
+			}
+		}
+		if !foundA || !foundS {
+			c.Note(fmt.Sprintf("leading-zero search: short A found=%v, short s_a found=%v", foundA, foundS))
+		}
+		// (4) arbitrary short server values, minimal encoding (compared with the specification)
+		for _, n := range []int{1, 31, 255, 2, 32, 200}[:c.N(3, 6)] {
+			B := c.Rng.Bytes(n)
+			B[0] |= 1
+			in := hashIn{Password: hx16(password), SrpB: hx16(B), Random: hx16(c.Rng.Bytes(256)), Salt1: hx16(newSalt), Salt2: hx16(salt2), G: g, P: prodP, Note: fmt.Sprintf("B-%d-bytes", n)}
+			h.hashCase(in, true, round == 0 && n == 31)
 		}
 	}
 
